@@ -82,6 +82,20 @@ pub fn header_sweeps() -> Vec<(String, Vec<u8>)> {
     ];
     let mut tags: Vec<u32> = codec::known_tags().iter().map(|t| u32::from_le_bytes(*t)).collect();
     tags.extend([u32::from_le_bytes(*b"XXXX"), u32::from_le_bytes(*b"PAD\x00"), 0, 0xffff_ffff]);
+    // request-sized datagrams (bare and framed) that are a count word followed by zeros, for counts
+    // around every fraction of the message length a header computation may use
+    for framed in [false, true] {
+        let l: usize = if framed { 1012 } else { 1024 };
+        let mut counts: Vec<usize> = vec![19, 20, 21, 64, 100, 126, 127, 128, 129, 150, 160, 200, 202, 203, 250, 253, 254, 255, 256, 257, 300, 500, 505, 506, 507, 1000, 1011, 1012, 1013, 1024];
+        counts.extend([l / 8 - 1, l / 8, l / 8 + 1, l / 5, l / 5 + 1, l / 4 - 1, l / 4, l / 4 + 1, l / 2, l]);
+        counts.sort();
+        counts.dedup();
+        for c in counts {
+            let mut m = vec![0u8; l];
+            m[..4].copy_from_slice(&(c as u32).to_le_bytes());
+            out.push((format!("sweep-count-zero-body:{}", if framed { "ietf" } else { "classic" }), if framed { codec::frame(&m) } else { m }));
+        }
+    }
     for (name, base, m0) in bases {
         let cnt = u32::from_le_bytes(base[m0..m0 + 4].try_into().unwrap()) as usize;
         let len = base.len();
